@@ -188,7 +188,7 @@ theorem wr_next (w : Win) (h : Whole) (hr : WR w h) :
       rw [h5, List.drop_append_of_le_length (by simp; omega), List.drop_drop]
 
 /-- The window lexer and the whole-input lexer simulate each other. -/
-theorem winWholeSim : Sim Win.prims Whole.prims WR WRp WRm where
+theorem winWholeSim : PrimSim Win.prims Whole.prims WR WRp WRm where
   rp_r := fun _ _ h => h.1
   rm_r := fun _ _ h => h.1
   next := wr_next
